@@ -70,6 +70,7 @@ type Opts struct {
 	Nest       bool // order(join(..),..) / join(order(..),..) shapes
 	NoAmb      bool // leave ambiguous spans out of multi-part locations
 	NoOrder    bool
+	Plain      bool // leaves are points and complete ranges only
 }
 
 type leaf struct {
@@ -100,11 +101,14 @@ func leaves(L int, o Opts, first, last bool) []leaf {
 	for s := 0; s < L; s++ {
 		for e := s + 1; e <= L; e++ {
 			for _, pt := range partials {
+				if o.Plain && pt != gts.Complete {
+					continue
+				}
 				out = append(out, leaf{gts.Ranged{Start: s, End: e, Partial: pt}, mask(s, e), false})
 			}
 		}
 	}
-	if !o.NoAmb {
+	if !o.NoAmb && !o.Plain {
 		for s := 0; s < L; s++ {
 			for e := s + 2; e <= L; e++ {
 				out = append(out, leaf{gts.Ambiguous{Start: s, End: e}, mask(s, e), false})
